@@ -53,6 +53,13 @@ def one(ctx, kind, xs, t, family):
     site = f'clustering.{kind}_linkage'
     try:
         labels = [int(v) for v in np.asarray(fn(pts, t)).tolist()]
+        if np.all(x == np.floor(x)) and np.all(np.abs(x) < 2.0 ** 50) and ctx.rng.random() < 0.3:
+            # the same points as an integer-dtype array, with arbitrary y values (the linkages are one-dimensional in x)
+            pi = np.column_stack([x.astype(np.int64), np.arange(n, dtype=np.int64)[::-1]])
+            li = [int(v) for v in np.asarray(fn(pi, t)).tolist()]
+            ctx.tag('input:int64-dtype')
+            if li != labels:
+                ctx.fail('predicate', 'integer-dtype-points-give-the-same-labels', site, case, dict(float64=labels, int64=li))
     except Exception as e:
         ctx.fail('predicate', 'completes', site, case, repr(e)[:200])
         return None
@@ -171,6 +178,20 @@ def run(ctx):
         t = pick_t(rng, kind, xs)
         labels = one(ctx, kind, xs, t, fam)
         # monotonicity of the cluster count in t (single, complete), on the REAL code
+        if labels is not None and kind in ('single', 'complete') and rng.random() < 0.15 and len(xs) >= 3:
+            # the whole sweep: the cluster count along the input's OWN distances (every threshold at which something can change), ascending
+            x_ = np.array(xs)
+            cand = sorted({float_dist(kind, x_, x_[-1] - x_[0], s_, i_) for i_ in range(1, len(xs)) for s_ in range(0, i_)} | {1.0, 2.0})
+            cand = [c for c in cand if c > 0][:40]
+            import kneeliverse.clustering as cl_
+            fn_ = cl_.single_linkage if kind == 'single' else cl_.complete_linkage
+            counts = [int(np.asarray(fn_(np.column_stack([x_, np.zeros(len(xs))]), c)).max()) + 1 for c in cand]
+            ctx.tag('count-sweep')
+            for (ca, na), (cb, nb) in zip(zip(cand, counts), zip(cand[1:], counts[1:])):
+                if nb > na:
+                    ctx.fail('predicate', 'cluster-count-never-increases-with-t', f'clustering.{kind}_linkage',
+                             dict(kind=kind, xs=[float(v) for v in xs], t=float(ca)), dict(t_small=ca, count_small=na, t_large=cb, count_large=nb))
+                    break
         if labels is not None and kind in ('single', 'complete') and rng.random() < 0.5:
             t2 = pick_t(rng, kind, xs)
             l2 = one(ctx, kind, xs, t2, fam)
